@@ -134,7 +134,7 @@ def make_judges(ctx):
 
 def floors(tier):
     return [('mix', op, sg, rt) for op in ('add', 'sub', 'mul') for sg in ('ss', 'su', 'us', 'uu') for rt in ('operator', 'function', 'numpy')] + \
-           [('nfrac', '<0'), ('nfrac', '>w'), ('value-built',)] + [('integer-formats', sg) for sg in ('ss', 'su', 'us', 'uu')]
+           [('nfrac', '<0'), ('nfrac', '>w'), ('value-built',)] + [('integer-formats', sg) for sg in ('ss', 'su', 'us', 'uu')] + [('integer-formats-value-method', 0), ('integer-formats-value-method', 1)]
 
 
 # ------------------------------------------------------------------------------------------ workload
@@ -268,6 +268,23 @@ def run_case(case, ctx):
                     continue
                 do_ops(ctx, xi, yi, routes=('operator', 'function', 'numpy'))
                 ctx.floor_hit(('integer-formats', ('s' if ix[0] else 'u') + ('s' if iy[0] else 'u')))
+                # the value based method on these integer-valued operands (whole objects, and elements taken by indexing - their values are NumPy scalars):
+                # the same exact results (every value here is an exact double)
+                fm_ = ctx.mon.fxpmath
+                pairs_ = [(xi, yi)] if _rep == 0 else [(xi, yi), (xi[0], yi[1]), (xi[2], yi), (xi[1], yi[1])]
+                for xa_, ya_ in pairs_:
+                    for op_ in ('add', 'sub', 'mul'):
+                        try:
+                            getattr(fm_, op_)(xa_, ya_, method='repr')
+                        except Exception:
+                            pass
+                    try:
+                        xr_ = Fxp(xa_, like=xa_, op_method='repr')
+                        xr_ - ya_
+                        xr_ * ya_
+                    except Exception:
+                        pass
+                ctx.floor_hit(('integer-formats-value-method', _rep))
         if case['i'] % 4 == 0:
             # operands with a history: signedness changed on its own, built like= another object with another sign, flags raised by an earlier store
             x2 = Fxp(np.asarray(x.val), fx[0], fx[1], fx[2], raw=True)
